@@ -1,7 +1,7 @@
 (* C14 — non-vacuity and sanity runs *)
 From Coq Require Import ZArith QArith List Bool.
 Import ListNotations.
-From GV Require Import Common.Wire C14.Model C14.Lemmas.
+From GV Require Import Common.Wire C14.Model C14.Lemmas C14.GenEquiv.
 Open Scope Z_scope.
 
 (* a 2 x 3 dataset: pixel attributes 0, 1; a plain stored attribute 2; a stored attribute 3 that is broadcast along
@@ -48,3 +48,10 @@ Qed.
 
 (* update_id 2 -> 9 keeps order and the derived values *)
 Eval vm_compute in (keys (dcomps (update_id 2 9 d0)), show (get_data 8 (update_id 2 9 d0) [] 6), show (get_data 8 d0 [] 6)).
+
+(* ---- the generated cascade (Gen_datamut.remove_component through env14) removes the same attributes ---- *)
+Eval vm_compute in (keys (dcomps (g_remove_component 3 d0)), keys (dcomps (g_remove_component 0 d0)), keys (dcomps (g_remove_component 5 d0))).
+Example generated_cascade_same : g_remove_component 3 d0 = remove_component 3 d0 /\ length (dcomps (g_remove_component 3 d0)) = 3%nat.
+Proof. split; vm_compute; reflexivity. Qed.
+Example generated_update_id_same : keys (dcomps (g_update_id 2 9 d0)) = keys (dcomps (update_id 2 9 d0)).
+Proof. vm_compute. reflexivity. Qed.
